@@ -53,8 +53,15 @@ class MiniEval:
         if isinstance(s, ast.Expr):
             if isinstance(s.value, ast.Constant):
                 return
-            if isinstance(s.value, ast.Call) and (dotted(s.value.func) or "").startswith(self.skip):
+            if isinstance(s.value, ast.Call) and self.skip and (dotted(s.value.func) or "").startswith(self.skip):
                 return
+            if isinstance(s.value, ast.Call) and self.call_hook is not None and not s.value.keywords:
+                try:
+                    a_ = [self._ev(x, env) for x in s.value.args]
+                except AnalysisError:
+                    a_ = None
+                if self.call_hook(s.value, a_) is not None:
+                    return
             raise AnalysisError(f"minieval: expression statement `{norm(s)[:60]}` outside the fragment")
         if isinstance(s, ast.Assign) and len(s.targets) == 1:
             t = s.targets[0]
@@ -149,6 +156,20 @@ class MiniEval:
             return tuple(self._ev(x, env) for x in e.elts)
         if isinstance(e, ast.List):
             return [self._ev(x, env) for x in e.elts]
+        if isinstance(e, ast.Subscript):
+            v = self._ev(e.value, env)
+            if isinstance(v, (list, tuple, str)):
+                if isinstance(e.slice, ast.Slice):
+                    lo = self._ev(e.slice.lower, env) if e.slice.lower is not None else None
+                    hi = self._ev(e.slice.upper, env) if e.slice.upper is not None else None
+                    st = self._ev(e.slice.step, env) if e.slice.step is not None else None
+                    if all(x is None or (isinstance(x, int) and not isinstance(x, bool)) for x in (lo, hi, st)):
+                        return list(v[lo:hi:st]) if not isinstance(v, str) else v[lo:hi:st]
+                else:
+                    i = self._ev(e.slice, env)
+                    if isinstance(i, int) and not isinstance(i, bool) and -len(v) <= i < len(v):
+                        return v[i]
+            raise AnalysisError(f"minieval: subscript `{norm(e)[:60]}` outside the fragment")
         if isinstance(e, ast.IfExp):
             return self._ev(e.body, env) if self._truth(self._ev(e.test, env)) else self._ev(e.orelse, env)
         if isinstance(e, ast.BinOp):
@@ -203,6 +224,14 @@ class MiniEval:
                 if isinstance(v, (list, tuple)):
                     v = list(v)
                     return {"list": v, "tuple": tuple(v), "reversed": v[::-1], "sorted": sorted(v)}[d]
+            if d in ("max", "min") and len(e.args) >= 2 and not e.keywords:
+                a = [self._ev(x, env) for x in e.args]
+                if all(isinstance(x, (int, float)) and not isinstance(x, bool) for x in a):
+                    return max(a) if d == "max" else min(a)
+            if isinstance(e.func, ast.Attribute) and e.func.attr in ("toarray", "flatten", "tolist", "copy", "getA1") and not e.args and not e.keywords:
+                v = self._ev(e.func.value, env)
+                if isinstance(v, (list, tuple)):
+                    return list(v)
             if d == "range" and 1 <= len(e.args) <= 3 and not e.keywords:
                 a = [self._ev(x, env) for x in e.args]
                 if all(isinstance(x, int) and not isinstance(x, bool) for x in a):
